@@ -1,11 +1,13 @@
 """C19 — ordering, sign, remainder, sums and identities.  Proof: Props/C19.v.  Correspondence: pairs of numbers of the same
 kind and number/float pairs in both positions, with negative values, negative divisors, zeros of both signs
-(`rlharness dual` ops 3 (oc 4,6-9), 4, 5, 6); the remainder uses the EXACT fmod of the float model."""
+(`rlharness dual` ops 3 (oc 4,6-10), 4, 5, 6, 12 (oc 10), 14 (oc 13, 14)); the remainder uses the EXACT fmod of the float model."""
+import math
 from common import *  # noqa
 import dualgen as dg
 import props.c03 as c03
 
-BIN = ["+", "-", "*", "/", "%", "==", "<", "<=", ">", ">="]
+BIN = ["+", "-", "*", "/", "%", "==", "<", "<=", ">", ">=", "abs_sub"]
+KN = {"f": "f64", "d": "Dual", "d2": "Dual2"}
 UN = ["abs", "signum", "is_zero", "neg", "neg(ref)", "zero", "one", "is_positive", "is_negative"]
 VALS = [7.5, -7.5, 2.0, -2.0, 0.0, -0.0, 1e-3, -1e3, 5.25, -0.3, 3.0, 1.0, -1.0, 0.1, 123456.789, -9.75]
 
@@ -60,7 +62,7 @@ def gen_cases(ctx):
         a = c03.mk(rng, kind, lay(rng), re=val(rng))
         if oc == 2 and rng.random() < 0.5:
             a = c03.relist(rng, kind, c03.mk(rng, kind, [], re=0.0), lay(rng))   # zero with padded variables
-        cases.append(("un", kind, oc, [5, kind, oc] + dg.enc_number(a)[1:], "%s(%s), value %r" % (UN[oc], "Dual" if kind == 1 else "Dual2", a[2])))
+        cases.append(("un", kind, oc, [5, kind, oc] + dg.enc_number(a)[1:], "%s(%s), value %r" % (UN[oc], "Dual" if kind == 1 else "Dual2", a[2]), (a[2],)))
     for _ in range(n // 4):
         kind = rng.choice([1, 2])
         l = [c03.mk(rng, kind, lay(rng), re=val(rng)) for _ in range(rng.randint(0, 6))]
@@ -68,13 +70,53 @@ def gen_cases(ctx):
         for x in l:
             e += dg.enc_number(x)[1:]
         cases.append(("sum", kind, 0, e, "sum of %d %s" % (len(l), "Dual" if kind == 1 else "Dual2")))
+    # ---- abs_sub (Signed::abs_sub, "positive difference") on two numbers of the same kind: negative values, +0.0 / -0.0,
+    #      EQUAL values (the <= boundary), all layout relations, shared and unshared Arc
+    for _ in range(n // 2):
+        kind = rng.choice([1, 2])
+        la = lay(rng)
+        lb = la if rng.random() < 0.4 else lay(rng)
+        av = val(rng)
+        r = rng.random()
+        bv = av if r < 0.3 else (-av if r < 0.4 else val(rng))
+        a = c03.mk(rng, kind, la, re=av)
+        b = c03.mk(rng, kind, lb, re=bv)
+        p = 1 if (la == lb and la and rng.random() < 0.5) else 0
+        cases.append(("bin", kind, 10, c03.enc(kind, 10, p, a, b),
+                      "%s abs_sub %s, values %r, %r" % ("Dual" if kind == 1 else "Dual2", "same kind", a[2], b[2]), (a[2], b[2])))
+    # ---- abs_sub on the Number container: the 3 x 3 table (7 computing cells, Dual-with-Dual2 refused)
+    for ka in ("f", "d", "d2"):
+        for kb in ("f", "d", "d2"):
+            for _ in range(14 if th else 7 * ctx.scale):
+                av = val(rng)
+                r = rng.random()
+                bv = av if r < 0.3 else val(rng)
+                a = ("f", av) if ka == "f" else c03.mk(rng, 1 if ka == "d" else 2, lay(rng), re=av)
+                b = ("f", bv) if kb == "f" else c03.mk(rng, 1 if kb == "d" else 2, lay(rng), re=bv)
+                cases.append(("numbin", 0, 10, [12, 10] + dg.enc_number(a) + dg.enc_number(b),
+                              "Number(%s) abs_sub Number(%s), values %r, %r" % (KN[ka], KN[kb], av, bv), (av, bv)))
+    # ---- is_positive / is_negative on the Number container (sign BIT of the value: -0.0 is negative)
+    for ka in ("f", "d", "d2"):
+        for oc in (13, 14):
+            for v in [0.0, -0.0, 2.5, -2.5, 1e-300, -1e-300] + [val(rng) for _ in range(4 if not th else 12)]:
+                a = ("f", v) if ka == "f" else c03.mk(rng, 1 if ka == "d" else 2, lay(rng), re=v)
+                cases.append(("numun", 0, oc, [14, oc] + dg.enc_number(a) + dg.enc_f(1.0),
+                              "Number(%s).%s, value %r" % (KN[ka], "is_positive" if oc == 13 else "is_negative", v), (v,)))
     return cases
+
+
+def sign_bit(x):
+    return math.copysign(1.0, x) < 0
 
 
 def schema_for(tag, kind, oc):
     d = ["dual"] if kind == 1 else ["dual2"]
+    if tag == "numbin":
+        return ["number"]
+    if tag == "numun":
+        return ["int"]
     if tag in ("bin", "mix"):
-        return d if oc <= 4 else ["int"]
+        return d if (oc <= 4 or oc == 10) else ["int"]
     if tag == "un":
         return ["int"] if oc in (2, 7, 8) else d
     return d
@@ -83,7 +125,10 @@ def schema_for(tag, kind, oc):
 def run(ctx):
     ctx.rule = ("seeded pairs of Dual/Dual2 of the same kind and number/float pairs in both positions over assorted layouts, values drawn "
                 "from a pool with negative values, negative divisors, +0.0/-0.0, tiny and large magnitudes: %, ==, <, <=, >, >= (and + - * / "
-                "for the float mixes), abs / signum / is_zero / neg / zero / one / is_positive / is_negative, Sum over 0-6 numbers. "
+                "for the float mixes), abs / signum / is_zero / neg / zero / one / is_positive / is_negative, Sum over 0-6 numbers; "
+                "abs_sub on pairs of the same kind (30% EQUAL values, 10% opposite, +-0.0, all layout relations, shared Arc) and on the "
+                "3 x 3 Number table (outcome class exact: 7 computing cells, 2 refused); is_positive / is_negative on the Number "
+                "container and on Dual / Dual2 additionally tested DIRECTLY against the sign bit of the input value. "
                 "Non-trivial = negative operand or divisor involved; distinct by encoded case.")
     ctx.trusted = [
         "Coq 8.16.1 kernel; theorems over R (stdlib real axioms through the NumR instance)",
@@ -101,12 +146,31 @@ def run(ctx):
     encd = [c[3] for c in cases]
     impl = run_harness("dual", ["c " + " ".join(str(x) for x in c) for c in encd])
     model = coq_eval("Run.RunDual", "runDual", encd, ctx.work, shard=max(30, len(encd) // (NCPU * 3) + 1), tag="c19")
-    for (tag, kind, oc, e, desc), a, b in zip(cases, impl, model):
+    for c, a, b in zip(cases, impl, model):
+        tag, kind, oc, e, desc = c[:5]
+        meta = c[5] if len(c) > 5 else None
         ctx.evaluations += 1
-        ctx.count("%s %s" % (tag, BIN[oc] if tag in ("bin", "mix") else UN[oc] if tag == "un" else "sum"))
+        ctx.count("%s %s" % (tag, BIN[oc] if tag in ("bin", "mix", "numbin") else UN[oc] if tag == "un" else
+                             ("is_positive" if oc == 13 else "is_negative") if tag == "numun" else "sum"))
         if "-" in desc.split("values")[-1] or tag == "sum":
             ctx.nontriv(tuple(e))
         ok, da, db = dg.agree(a, b, schema_for(tag, kind, oc), rtol=1e-9)
+        if tag == "numbin" and da[0] == "panic":
+            ctx.count("numbin abs_sub: refused (panic) cells observed")
+        if oc == 10 and tag in ("bin", "numbin") and da[0] == "ok":
+            ctx.count("abs_sub: %s" % ("self < other (variable-free zero)" if meta[0] < meta[1] else
+                                       "self == other (variable-free zero)" if meta[0] == meta[1] else "self > other (difference)"))
+        # DIRECT TEST ON THE IMPLEMENTATION (not a model comparison): is_positive / is_negative answer the sign BIT of the
+        # real part of their input (-0.0 is negative), for Dual, Dual2 and the Number container
+        if (tag == "un" and oc in (7, 8)) or tag == "numun":
+            v = meta[0]
+            want = (not sign_bit(v)) if (oc in (7, 13)) else sign_bit(v)
+            ctx.count("direct sign-bit test: %s" % ("is_positive" if oc in (7, 13) else "is_negative"))
+            if a != [0, int(want)]:
+                ctx.violation("is_positive / is_negative does not answer the sign bit of the value on %s: implementation %s, sign bit says %s" % (
+                    desc, a, int(want)),
+                    {"case": e, "what_op": desc, "implementation": a, "expected_from_sign_bit": int(want), "direct_test": True,
+                     "harness_cmd": "echo 'c %s' | harness/target/release/rlharness dual" % " ".join(str(t) for t in e)})
         if not ok:
             ctx.violation("the implementation disagrees with the proved model on %s: implementation %s, model %s" % (
                 desc, str(dg.plain(da))[:300], str(dg.plain(db))[:300]),
